@@ -35,7 +35,7 @@ STAGES = ["separate_terminals", "binarize", "separate_start", "push_null", "trim
           "unarycycleremove", "unarycycleremove_full", "ucycle_pred"]
 UCYCLE = ("unarycycleremove", "unarycycleremove_full", "ucycle_pred")
 PUBLIC = ["trim", "cotrim", "binarize", "separate_start", "separate_terminals", "nullaryremove", "nullaryremove_nb",
-          "nullaryremove_nt", "unaryremove", "unarycycleremove", "unarycycleremove_nt", "cnf", "rename", "renumber", "unfold"]
+          "nullaryremove_nt", "unaryremove", "unarycycleremove", "unarycycleremove_nt", "cnf", "rename", "rename0", "renumber", "unfold"]
 
 
 def _enc_chart1(ch, R):
@@ -193,6 +193,12 @@ def impl(case):
     public("cnf", lambda: mk().cnf)
     public("rename", lambda: mk().rename(lambda x: ("r", x)))
     public("renumber", lambda: mk().renumber())
+    if all(isinstance(v, str) for v in case["cfg"]["V"]):
+        # rename to 0-based indices in order of first use: the START symbol becomes 0, a falsy name
+        def rename0():
+            names = {}
+            return mk().rename(lambda x: names.setdefault(x, len(names)))
+        public("rename0", rename0)
     for (i, k) in case.get("unfold", [])[:1]:
         public("unfold", lambda: mk().unfold(i, k))
     # purity: the input grammar object is unchanged by all of the above (C05 reports it too)
@@ -222,7 +228,7 @@ def make_case(rng, i, tier):
     unf = cands[:2]
     if rng.random() < 0.12:
         # integer token ids (0 is falsy), handed to the library as ints, numpy integers or floats
-        desc, (xs,), _ = gen.intify_terms(desc, xs)
+        desc, (xs,), _ = gen.intify_terms(desc, xs, offset=rng.choice([0, 0, -len(desc["V"])]))
         tt = rng.choice([None, "float"])
         return {"id": i, "shape": shape + "+int_tokens" + ("+" + tt if tt else ""), "R": R, "cfg": desc, "xs": xs, "unfold": unf, "token_type": tt}
     return {"id": i, "shape": shape, "R": R, "cfg": desc, "xs": xs, "unfold": unf}
